@@ -22,6 +22,7 @@ import (
 	"os/exec"
 	"path/filepath"
 	"sort"
+	"strconv"
 	"strings"
 	"time"
 
@@ -170,6 +171,13 @@ func runWorker386(bin string, tier string, budget time.Duration, only string) (*
 }
 
 func main() {
+	for _, a := range os.Args[1:] {
+		if strings.HasPrefix(a, "--racepass=") {
+			n, _ := strconv.Atoi(strings.TrimPrefix(a, "--racepass="))
+			racePassMain(n) // binary built with -race: free-running concurrent pass
+			return
+		}
+	}
 	r := ev.Start("C08", "model_checking")
 	if dn, err := os.OpenFile("/dev/null", os.O_WRONLY, 0); err == nil {
 		os.Stdout = dn
@@ -259,6 +267,10 @@ func main() {
 			r.Report(key, "["+br.Backend+" backend] "+f.What, f.Replay)
 		}
 	}
+	tr := time.Now()
+	raceInfo := runRacePass(r)
+	raceInfo["wall_s"] = float64(int(time.Since(tr).Seconds()*10)) / 10
+	fmt.Fprintf(os.Stderr, "race pass done: %v\n", raceInfo)
 	if capped {
 		r.Budget = time.Nanosecond
 		r.OverBudget()
@@ -272,6 +284,7 @@ func main() {
 		"distinct_nontrivial":           classes,
 		"rule":                          "machines: every operation enabled by the magnitude contract is executed from every distinct state (raw limbs + magnitude bookkeeping, registers unordered) up to the depth bound and compared with the math/big model; a trace is one executed operation appended to the shortest history of its source state. families: a class is (family, outcome); table families cover every entry of pre_g, pre_g_128, prec and fin, raw and through the multiplication that uses exactly that entry",
 		"backends":                      backends,
+		"concurrent_race_pass":          raceInfo,
 		"per_backend":                   perBackend,
 	}, append([]string{
 		"oracle: refsecp (math/big, affine chord-and-tangent, double-and-add); its constants and group law are self-checked in every run (assertion count in per_backend.*.reference_selfcheck_assertions)",
@@ -341,6 +354,15 @@ func replay() {
 			res := apply(oi)
 			fmt.Fprintf(ev.Out, "  step %d: %s -> %s\n", i+1, n, res)
 		}
+	}
+	if rp.Family == "racepass" {
+		r := ev.Start("C08", "model_checking")
+		info := runRacePass(r)
+		fmt.Fprintf(ev.Out, "replay: free-running race-detector pass: %v, findings: %d\n", info, r.Violations())
+		if r.Violations() > 0 {
+			os.Exit(1)
+		}
+		os.Exit(0)
 	}
 	switch rp.Machine {
 	case "field-registers":
